@@ -568,9 +568,10 @@ def limit_edge_streams(rng, lim):
                 s = head + line + b"\r\n\r\n"
                 mark = len(pre) + len(head) + len(line)
             elif pos == "header-count-chunked":
-                # a chunked message without trailers whose head uses max_headers + delta lines (request line,
-                # fields, empty line): the budget left for the trailer section is 0 / 1 / exhausted
-                k = mh + delta - 4
+                # a chunked message without trailers: head lines (request line, fields, empty line) plus the one
+                # line that ends the trailer section use max_headers + delta lines -- the budget is shared
+                # (max_trailers = max_headers - lines of the head), so +1 is a head of exactly max_headers lines
+                k = mh + delta - 5
                 if k < 0:
                     continue
                 head = (b"POST / HTTP/1.1\r\nHost: x\r\nTransfer-Encoding: chunked\r\n"
